@@ -168,31 +168,42 @@ DONE_ANSWER = "answer"
 NEXT_NAME = "next-name"
 RAISE_YXDOMAIN = "yxdomain"
 
-# kind -> (disposition, how it is described in the error trace)
+# outcome kind -> disposition; a callable row decides from (over_tcp, retry_servfail)
 DISPOSITION = {
-    "formerr": (DROP, None),
-    "eof": (DROP, "EOFError"),
-    "oserror": (DROP, None),
-    "notimpl": (DROP, "NotImplementedError"),
-    "timeout": (KEEP, "Timeout"),
-    "rcode": (DROP, None),
-    "yxdomain": (RAISE_YXDOMAIN, None),
+    "formerr": DROP,        # malformed reply
+    "eof": DROP,            # connection closed early
+    "oserror": DROP,        # network error
+    "notimpl": DROP,        # transport cannot do what was asked
+    "rcode": DROP,          # REFUSED, FORMERR, NOTIMP, ... : not an answer we can use
+    "servfail": lambda over_tcp, retry_servfail: KEEP if retry_servfail else DROP,
+    "timeout": KEEP,
+    "truncated": lambda over_tcp, retry_servfail: DROP if over_tcp else TCP_RETRY,
+    "yxdomain": RAISE_YXDOMAIN,
+}
+
+# outcome kind -> how the failure reads in the error trace of NoNameservers/LifetimeTimeout
+# (exception class name, or the rcode's text)
+TRACE_TEXT = {
+    "formerr": lambda o: o["exc"],
+    "oserror": lambda o: o["exc"],
+    "eof": lambda o: "EOFError",
+    "notimpl": lambda o: "NotImplementedError",
+    "rcode": lambda o: o["rc"],
+    "servfail": lambda o: "SERVFAIL",
+    "timeout": lambda o: "Timeout",
+    "truncated": lambda o: "Truncated",
+    "yxdomain": lambda o: None,
 }
 
 
 def dispose(o, over_tcp, retry_servfail, reply):
     """-> (disposition, error-trace description or None)"""
     k = o["k"]
-    if k == "truncated":
-        return (DROP if over_tcp else TCP_RETRY, "Truncated")
-    if k == "servfail":
-        return (KEEP if retry_servfail else DROP, "SERVFAIL")
-    if k in ("formerr", "oserror"):
-        return (DROP, o["exc"])
-    if k == "rcode":
-        return (DROP, o["rc"])
     if k in DISPOSITION:
-        return DISPOSITION[k]
+        row = DISPOSITION[k]
+        if callable(row):
+            row = row(over_tcp, retry_servfail)
+        return (row, TRACE_TEXT[k](o))
     # NOERROR / NXDOMAIN replies
     if not reply["usable"]:
         return (DROP, reply["why"])
@@ -315,7 +326,7 @@ def resolve(world):
         if entry["rdatas"] is None and case["raise_on_no_answer"]:
             return {
                 "kind": "NoAnswer", "resp": entry["resp"], "minttl": entry["minttl"],
-                "exp": entry["exp"],
+                "exp": entry["exp"], "qname": entry["qname"],
             }
         return dict(entry, kind="answer")
 
